@@ -342,7 +342,7 @@ func (ri *RouteInformation) unmarshal(b []byte) error {
 	if err := checkPreference(ri.Preference); err != nil {
 		return err
 	}
-	ri.Prefix = CopyBytes(b[8 : 8+(pl/8)]) // copy bytes up to prefix len bits
+	ri.Prefix = CopyBytes(b[8 : 8+(pl+7)/8]) // copy every byte that holds a prefix bit (a /60 has 8)
 
 	return nil
 }
